@@ -23,6 +23,7 @@ type Dialer interface {
 }
 
 type MemEnd struct {
+	mon    *vs.Monitor // shared by both ends of the connection
 	ID     string
 	buf    []byte
 	Closed bool // this end closed locally
@@ -38,7 +39,7 @@ type MemEnd struct {
 }
 
 func (c *MemEnd) Read(p []byte) (n int, err error) {
-	vs.Gate("net.Read", c.ID, func() bool { return len(c.buf) > 0 || c.Closed || c.Peer.Closed }, func() {
+	c.mon.Do("net.Read", c.ID, func() bool { return len(c.buf) > 0 || c.Closed || c.Peer.Closed }, func() {
 		if c.Closed {
 			err = errors.New("use of closed network connection")
 			return
@@ -54,7 +55,7 @@ func (c *MemEnd) Read(p []byte) (n int, err error) {
 }
 
 func (c *MemEnd) Write(p []byte) (n int, err error) {
-	vs.Gate("net.Write", c.ID, nil, func() {
+	c.mon.Do("net.Write", c.ID, nil, func() {
 		if c.Closed {
 			err = errors.New("use of closed network connection")
 			return
@@ -78,7 +79,7 @@ func (c *MemEnd) Write(p []byte) (n int, err error) {
 }
 
 func (c *MemEnd) Close() error {
-	vs.Gate("net.Close", c.ID, nil, func() {
+	c.mon.Do("net.Close", c.ID, nil, func() {
 		if !c.Closed {
 			c.ClosedAt = time.Now()
 			c.UnreadAtClose = len(c.buf)
@@ -98,6 +99,8 @@ type memListener struct {
 	backlog []*MemEnd
 	closed  bool
 }
+
+var netMon vs.Monitor // listeners, backlog and the registry
 
 var (
 	memListeners = map[string]*memListener{}
@@ -151,16 +154,19 @@ func MemAbandoned(min time.Duration) (out []string) {
 
 // MemCloseAll is used at teardown (scheduler passive).
 func MemCloseAll() {
+	netMon.Wake(func() {
+		for _, l := range memListeners {
+			l.closed = true
+		}
+	})
 	for _, e := range MemEnds {
-		e.Closed = true
-	}
-	for _, l := range memListeners {
-		l.closed = true
+		e := e
+		e.mon.Wake(func() { e.Closed = true })
 	}
 }
 
 func (l *memListener) Accept() (c net.Conn, err error) {
-	vs.Gate("net.Accept", l.addr, func() bool { return len(l.backlog) > 0 || l.closed }, func() {
+	netMon.Do("net.Accept", l.addr, func() bool { return len(l.backlog) > 0 || l.closed }, func() {
 		if len(l.backlog) == 0 {
 			err = errors.New("accept: use of closed network connection")
 			return
@@ -170,13 +176,13 @@ func (l *memListener) Accept() (c net.Conn, err error) {
 	})
 	return
 }
-func (l *memListener) Close() error   { l.closed = true; return nil }
+func (l *memListener) Close() error   { netMon.Wake(func() { l.closed = true }); return nil }
 func (l *memListener) Addr() net.Addr { a, _ := net.ResolveTCPAddr("tcp", l.addr); return a }
 
 type memDialer struct{}
 
 func (memDialer) Dial(network, address string) (c net.Conn, err error) {
-	vs.Gate("net.Dial", address, nil, func() {
+	netMon.Do("net.Dial", address, nil, func() {
 		l := memListeners[address]
 		if l == nil || l.closed {
 			err = errors.New("dial tcp " + address + ": connect: connection refused")
@@ -185,8 +191,9 @@ func (memDialer) Dial(network, address string) (c net.Conn, err error) {
 		memDials++
 		sa, _ := net.ResolveTCPAddr("tcp", address)
 		ca := &net.TCPAddr{IP: net.IPv4(127, 0, 0, 1), Port: 40000 + memDials}
-		a := &MemEnd{ID: fmt.Sprintf("c%d.cli", memDials), l: ca, r: sa}
-		b := &MemEnd{ID: fmt.Sprintf("c%d.srv", memDials), l: sa, r: ca}
+		mon := &vs.Monitor{}
+		a := &MemEnd{mon: mon, ID: fmt.Sprintf("c%d.cli", memDials), l: ca, r: sa}
+		b := &MemEnd{mon: mon, ID: fmt.Sprintf("c%d.srv", memDials), l: sa, r: ca}
 		a.Peer, b.Peer = b, a
 		MemEnds = append(MemEnds, a, b)
 		l.backlog = append(l.backlog, b)
@@ -197,11 +204,15 @@ func (memDialer) Dial(network, address string) (c net.Conn, err error) {
 
 func getDialer(network string, timeout time.Duration) Dialer { return memDialer{} }
 
-func Listen(network, address string) (net.Listener, error) {
-	if l, ok := memListeners[address]; ok && !l.closed {
-		return nil, errors.New("listen tcp " + address + ": bind: address already in use")
-	}
-	l := &memListener{addr: address}
-	memListeners[address] = l
-	return l, nil
+func Listen(network, address string) (ln net.Listener, err error) {
+	netMon.Wake(func() {
+		if l, ok := memListeners[address]; ok && !l.closed {
+			err = errors.New("listen tcp " + address + ": bind: address already in use")
+			return
+		}
+		l := &memListener{addr: address}
+		memListeners[address] = l
+		ln = l
+	})
+	return
 }
